@@ -245,6 +245,14 @@ func c14Serve(c *Ctx, fn *ssa.Function, decPkg, short string) {
 		r.Violation("C14-K4", key("decoded message aliases the read buffer via "+f.short), f.pos, f.detail)
 	}
 	r.OK("C14-K4", key("decoder retention summary consulted"), c.P.ipos(dec), "E3", "flows(input) of "+shortName(dec.Call.StaticCallee()))
+	// … nor memory of a package-level variable (messages of different datagrams share nothing)
+	ng := 0
+	for _, f := range e3.sharedGlobalFindings(dec.Call.StaticCallee()) {
+		ng++
+		if ng <= 3 {
+			r.Violation("C14-K4", key("decoded message "+f.short), f.pos, f.detail+" — handlers of different datagrams work on shared memory")
+		}
+	}
 
 	// --- K2/K3: handler dispatch
 	decErr := extractOf(dec, 1)
